@@ -42,6 +42,12 @@ def run_cmd(ctx, keep, tag="bat"):
     return bat, {x["id"]: x for x in verd}
 
 
+def _known_id(ctx, case_id):
+    """the case id matches an open known finding (whatever its signature): such a program is expected to go wrong in its own way"""
+    import fnmatch
+    return any(f.get("status", "open") == "open" and any(fnmatch.fnmatchcase(case_id, pat) for pat in f["match"]) for f in ctx.findings)
+
+
 def judge(ctx, c, v, b, r, tag=""):
     """report a completed CmdExe run that differs from the reference; returns True if the run was compared"""
     # the model gives up after 60000 steps: when the reference needs less than a hundredth of that, the Batch script does not terminate
@@ -56,7 +62,7 @@ def judge(ctx, c, v, b, r, tag=""):
             ctx.notes["unsupported_lines"] += b.get("unsupported", [])[:2]
         # only the world builtins (files, commands, input) lie outside the cmd.exe model: a program without them whose script the model cannot
         # execute means that the converter emits something new, or that control reaches a line in a way the model does not know (round 9)
-        if r["st"] == "unsupported" and not re.search(r"@\w|\b(?:write|read|exists|input)\(", c.get("src", "")):
+        if r["st"] == "unsupported" and not re.search(r"@\w|\b(?:write|read|exists|input)\(", c.get("src", "")) and not _known_id(ctx, c["id"] + tag):
             ctx.notes.setdefault("blind_for", []).append(c["id"])
         return False
     if not r["ok"]:
